@@ -88,6 +88,10 @@ func lookupJobs(e *core.Env) []lookupJob {
 	for k := e.N(260, 3000); k > 0; k-- {
 		jobs = append(jobs, lookupJob{mode: "seq"})
 	}
+	// directed: a truncated UDP answer with long TTLs, then a negative answer with a short SOA TTL over TCP
+	for k := e.N(6, 40); k > 0; k-- {
+		jobs = append(jobs, lookupJob{mode: "truncneg"})
+	}
 	return jobs
 }
 
@@ -139,6 +143,16 @@ func lookupCase(e *core.Env, w *world, ci int, r *core.RNG, j lookupJob) {
 			c0.Items[1-famIdx(j.first)] = nil
 		}
 		sc.TCP = append([]connScript{c0}, g.randomTCP()[0])
+	case "truncneg":
+		sc = &script{First: fam(r.Intn(2))}
+		g.fixTTL = int64(r.Pick(20, 60, 300))
+		sc.UDP[0] = []udpStep{{Main: g.item("trunc", 4)}}
+		sc.UDP[1] = []udpStep{{Main: g.item("trunc", 6)}}
+		g.fixTTL = int64(r.Range(1, 5))
+		j.kA, j.kB = r.PickStr("nx_soa", "nodata_soa", "nx"), r.PickStr("nx_soa", "nodata_soa")
+		sc.TCP = []connScript{g.tcpConn(j.kA, j.kB)}
+		sc.TCP[0].Term = "close"
+		g.fixTTL = 0
 	default:
 		sc = g.randomScript()
 	}
@@ -189,18 +203,21 @@ func lookupCase(e *core.Env, w *world, ci int, r *core.RNG, j lookupJob) {
 		rec.Class("udp %s|%s first=%d %s/%s", j.kA, j.kB, j.first, via, outc)
 	case "tcp":
 		rec.Class("tcp %s|%s first=%d lead=%s %s", j.kA, j.kB, j.first, j.lead, outc)
+	case "truncneg":
+		rec.Class("truncated-udp-long-ttl then tcp %s|%s %s", j.kA, j.kB, outc)
 	default:
 		rec.Class("seq [%s]|[%s] %s/%s", fmtKinds(sc.UDP[0]), fmtKinds(sc.UDP[1]), via, outc)
 	}
 	rec.Sample(8, map[string]any{"job": fmt.Sprintf("%+v", j), "events": l.events, "result": out})
 	// a fresh result whose lifetime has certainly not elapsed is served from the cache by every API, without asking
 	if en := f.entry; en != nil && !en.lt.noLower && vtime.Now().Before(en.lt.lo) {
+		c.desc["first_lookup"] = map[string]any{"events": l.events, "sent": l.log, "result": out, "lifetime_lo": en.lt.lo.Sub(out.Start).String(), "lifetime_hi": en.lt.hi.Sub(out.Start).String()}
 		c.checkCachedAPIs(res, name, en)
 		if c.bad {
 			return
 		}
 		// and once it has certainly elapsed, upstream is asked again
-		if r.Chance(1, 3) && en.lt.hi.Sub(vtime.Now()) < 400*time.Second {
+		if (r.Chance(1, 3) || j.mode == "truncneg") && en.lt.hi.Sub(vtime.Now()) < 400*time.Second {
 			vtime.Advance(en.lt.hi.Sub(vtime.Now()) + time.Duration(r.Pick(1, 500, 1000))*time.Millisecond)
 			g2 := &gen{r: r, al: w.al, name: name, tag: "lookup-again", modest: true}
 			out2 := w.call(res, "Lookup", name, g2.healthy(false))
@@ -209,7 +226,8 @@ func lookupCase(e *core.Env, w *world, ci int, r *core.RNG, j lookupJob) {
 				return
 			}
 			if out2.rec.asked() == 0 {
-				c.viol("expired_entry_served_without_asking", out2, "Lookup(%s) %v after the lifetime of the cached result had elapsed returned %s %s without asking upstream", name, out2.Start.Sub(en.lt.hi), addrList(out2.A), addrList(out2.AAAA))
+				kind, extra := en.lt.expiredKind()
+				c.viol(kind, out2, "Lookup(%s) %v after the lifetime of the cached result had elapsed returned %s %s without asking upstream%s", name, out2.Start.Sub(en.lt.hi), addrList(out2.A), addrList(out2.AAAA), extra)
 				return
 			}
 			if f2 := c.checkAsked(name, out2, en); f2.ok {
